@@ -159,7 +159,9 @@ def make_spec(server, seed, index, tier, entry):
     elif scen == "soak":
         spec = g.scn_soak(n=380 if not thorough else rng.choice([380, 600, 1100]),
                           max_cost=12.0 if not thorough else rng.choice([12.0, 12.0, 120.0]),
-                          kinds=[param] if param else None)
+                          kinds=[param] if param else None,
+                          # aimed soaks come in pairs: consecutive small values / random ones
+                          mode=("seq" if faults else True) if param else None)
     elif scen == "classchurn":
         spec = g.scn_classchurn(faults=faults,
                                 rounds=None if not thorough else rng.randint(6, 14))
